@@ -575,8 +575,8 @@ class Expander:
             for st in body:
                 if isinstance(st, ast.Expr) and isinstance(st.value, ast.Constant):
                     continue
-                if isinstance(st, (ast.Return, ast.Pass, ast.Assert)):
-                    continue
+                if isinstance(st, (ast.Return, ast.Pass, ast.Assert, ast.Raise)):
+                    continue  # (a path that raises yields no value: callers see the returning paths)
                 if isinstance(st, (ast.Assign, ast.AnnAssign, ast.AugAssign)):
                     tg = st.targets if isinstance(st, ast.Assign) else [st.target]
                     for t in tg:
@@ -630,10 +630,14 @@ class Expander:
                 ns = cfg.node_containing(st.value if isinstance(st, ast.Return) and st.value is not None else getattr(st, "test", st))
                 return ns[0] if ns else None
 
+            RAISES = ("raises",)
+
             def seq(body) -> Term | None:
                 for i, st in enumerate(body):
                     if isinstance(st, ast.Return):
                         return self.expr(st.value, f, node_for(st), {}, 0) if st.value is not None else NONE
+                    if isinstance(st, ast.Raise):
+                        return RAISES
                     if isinstance(st, ast.If):
                         a = seq(st.body)
                         b = seq(st.orelse)
@@ -647,11 +651,16 @@ class Expander:
                         if a is None or b is None:
                             a = a if a is not None else NONE
                             b = b if b is not None else NONE
+                        # a branch that raises contributes no value
+                        if a == RAISES:
+                            return b
+                        if b == RAISES:
+                            return a
                         return ("ifexp", self.expr(st.test, f, node_for(st), {}, 0), a, b)
                 return None
 
             t = seq(f.node.body)
-            if t is None:
+            if t is None or t == RAISES:
                 t = NONE
         finally:
             self._active.discard(key)
